@@ -37,7 +37,121 @@ type concLine struct {
 	Coq  string   `json:"coq"`
 }
 
+// concLedgerConfig: three leaves, two of them under a shared parent, generous maxima (the limit check of
+// TryIncAllocatedResource runs on every level)
+const concLedgerConfig = `partitions:
+  - name: default
+    placementrules:
+      - name: provided
+        create: false
+    nodesortpolicy:
+      type: fair
+    preemption:
+      enabled: false
+    queues:
+      - name: root
+        submitacl: "*"
+        queues:
+          - name: p
+            parent: true
+            resources:
+              max:
+                memory: 100000
+                vcore: 100000
+            queues:
+              - name: a
+              - name: b
+                resources:
+                  max:
+                    memory: 50000
+                    vcore: 50000
+          - name: c
+`
+
+// concGenLedger builds the LEDGER workload: many small asks of six applications in leaves root.p.a, root.p.b (shared
+// parent) and root.c on three large nodes, scheduled by the scheduling loop (queue increments) while the RM goroutine
+// releases bound allocations (queue decrements) and registers already bound allocations (increments from the RM side).
+// The releases are event driven: the mock shim releases an allocation after the core announced it (ReleaseAfterAlloc), so
+// the recorded window "release between tryAllocate and PartitionContext.allocate" cannot be hit; nothing is removed,
+// reloaded, cleaned, updated or timed out. Several hundred queue increments / decrements per run.
+func concGenLedger(rng *Rng, tier string) *ConcCase {
+	c := &ConcCase{World: CoreWorld{Configs: []string{concLedgerConfig}, Seed: rng.Next()}, YieldSeed: rng.Next() | 1, Mode: "conc", Ledger: true, ReleaseAfterAlloc: 60 + rng.Intn(35)}
+	for n := 1; n <= 3; n++ {
+		c.Ops = append(c.Ops, CoreOp{Kind: "node_add", Node: fmt.Sprintf("node-%d", n), Cap: CoreRes{"memory": 3000, "vcore": 3000}})
+	}
+	leaves := []string{"root.p.a", "root.p.b", "root.c", "root.p.a", "root.p.b", "root.c"}
+	for a := 1; a <= 6; a++ {
+		c.Ops = append(c.Ops, CoreOp{Kind: "app_add", App: fmt.Sprintf("app-%d", a), Queue: leaves[a-1], User: []string{"u1", "u2", "u3"}[a%3], Groups: []string{"g1"}})
+	}
+	nasks := 160 + rng.Intn(80)
+	if tier == "thorough" {
+		nasks = 260 + rng.Intn(120)
+	}
+	type bound struct {
+		at       int
+		app, key string
+	}
+	var pendingRel []bound
+	for k := 1; k <= nasks; k++ {
+		app := fmt.Sprintf("app-%d", 1+rng.Intn(6))
+		key := fmt.Sprintf("alloc-%d", k)
+		op := CoreOp{Kind: "alloc", App: app, Key: key, Res: CoreRes{"memory": int64(1 + rng.Intn(3)), "vcore": int64(1 + rng.Intn(2))}, AgeSec: 3600, Prio: int32(rng.Intn(3))}
+		if rng.Chance(12) {
+			// an allocation the RM already bound (recovery path): the RM goroutine increments the queues itself and
+			// releases it some operations later
+			op.Node = fmt.Sprintf("node-%d", 1+rng.Intn(3))
+			pendingRel = append(pendingRel, bound{at: k + 3 + rng.Intn(12), app: app, key: key})
+		}
+		c.Ops = append(c.Ops, op)
+		rest := pendingRel[:0]
+		for _, b := range pendingRel {
+			if b.at <= k {
+				c.Ops = append(c.Ops, CoreOp{Kind: "release", App: b.app, Key: b.key, TType: 1})
+			} else {
+				rest = append(rest, b)
+			}
+		}
+		pendingRel = rest
+	}
+	return c
+}
+
+// concTrigger: the workload contains an operation of the kinds behind the recorded ledger-drift findings.
+// full workloads: application / node removal, reload, queue cleaning, timers, resource update of an existing key;
+// calm workloads: a release generated blindly (not in answer to an allocation event), which can hit the window between
+// Application.tryAllocate and PartitionContext.allocate.
+func concTrigger(c *ConcCase) bool {
+	if c.Ledger {
+		return false
+	}
+	seen := map[string]bool{}
+	for _, op := range c.Ops {
+		switch op.Kind {
+		case "app_remove", "node_remove", "reload", "clean", "fire_ph", "fire_state":
+			return true
+		case "release":
+			if !strings.HasPrefix(op.Key, "foreign-") {
+				return true
+			}
+		case "alloc":
+			if seen[op.Key] {
+				return true
+			}
+			seen[op.Key] = true
+		}
+	}
+	return false
+}
+
 func concGen(rng *Rng, i int, tier string) (*ConcCase, error) {
+	if i%3 == 1 || os.Getenv("CONC_LEDGER") == "1" { // CONC_LEDGER: development knob
+		c := concGenLedger(rng, tier)
+		if i%10 == 4 {
+			c.YieldSeed = 0
+		}
+		c.GoDeadlock = i%15 == 7
+		return c, nil
+	}
 	maxOps := 130
 	if tier == "thorough" {
 		maxOps = 220
@@ -69,6 +183,12 @@ func concGen(rng *Rng, i int, tier string) (*ConcCase, error) {
 				continue
 			case "app_add":
 				op.PhAsk = nil
+			case "release":
+				// no blind releases: the mock shim releases allocations in answer to the allocation event instead
+				// (ReleaseAfterAlloc), a blind release can hit the recorded window between tryAllocate and allocate
+				if !strings.HasPrefix(op.Key, "foreign-") {
+					continue
+				}
 			case "alloc":
 				if op.Ph || seenKey[op.Key] {
 					continue
@@ -94,6 +214,10 @@ func concGen(rng *Rng, i int, tier string) (*ConcCase, error) {
 		c.YieldSeed = 0 // no wrapper yields: the Go scheduler's own interleavings
 	}
 	c.GoDeadlock = i%5 == 2
+	if calm {
+		c.ReleaseAfterAlloc = 50
+	}
+	c.Trigger = concTrigger(c)
 	return c, nil
 }
 
@@ -122,6 +246,17 @@ func concCoqEdges(res *ConcResult) string {
 	return "[" + b.String() + "]"
 }
 
+// workload class as emitted to Coq: 0 full, 1 calm, 2 ledger
+func concClass(c *ConcCase) int {
+	switch {
+	case c.Ledger:
+		return 2
+	case c.Calm:
+		return 1
+	}
+	return 0
+}
+
 func concCoqCase(c *ConcCase) string {
 	res := c.Result
 	cyc := []string{}
@@ -147,7 +282,7 @@ func concCoqCase(c *ConcCase) string {
 			ranks = append(ranks, fmt.Sprintf("(%d,%d%%nat)", v, rk))
 		}
 	}
-	b.WriteString("(mkConc\n   " + concCoqEdges(res) + "\n   [" + strings.Join(singles, "; ") + "] [" + strings.Join(ranks, "; ") + "]\n   [" + strings.Join(cyc, "; ") + "] " + coqBool(c.Calm) + " " + coqBool(res.Observed) + "\n   " + final + "\n   ")
+	b.WriteString("(mkConc\n   " + concCoqEdges(res) + "\n   [" + strings.Join(singles, "; ") + "] [" + strings.Join(ranks, "; ") + "]\n   [" + strings.Join(cyc, "; ") + "] " + fmt.Sprint(concClass(c)) + " " + coqBool(c.Trigger) + " " + coqBool(res.Observed) + "\n   " + final + "\n   ")
 	b.WriteString(fmt.Sprintf("%d %d %d %d)", len(res.Blocked), len(res.GoDeadlock), npanic, len(res.Races)))
 	return b.String()
 }
@@ -467,10 +602,9 @@ func concEngine(o *Opts) {
 		all.Cases = append(all.Cases, *c)
 		// statistics
 		st.Count("mode." + c.Mode)
-		if c.Calm {
-			st.Count("workload.calm")
-		} else {
-			st.Count("workload.full")
+		st.Count([]string{"workload.full", "workload.calm", "workload.ledger"}[concClass(c)])
+		if c.Trigger {
+			st.Count("workload.with.trigger.ops")
 		}
 		if c.GoDeadlock {
 			st.Count("godeadlock.enabled")
